@@ -768,3 +768,54 @@ def ob_row_kinds(kind: int, v: int, miss: int) -> bool:
 OBLIGATIONS.append(Ob('row_kinds', ob_row_kinds, ['0 <= kind < 6', '0 <= v < 3', '0 <= miss < 4'], timeout=tier(200, 600), path_timeout=60,
                       data='-', selectors='rows as dict / __getitem__-only mapping / object / (key, object) / (key, dict) / tuple of objects; column missing or None in 0-2 rows; values from %r' % (VALS3,),
                       stubs='render runs untraced once the selectors are fixed on the path'))
+
+
+# ---------------------------------------------------------------- wave 4: non-numeric values whose arithmetic fails in other ways
+class StampError(Exception):
+    pass
+
+
+class Stamp2(Stamp):
+    """like DateTime: adding two of them raises the library's own error (not TypeError); multiplying raises TypeError"""
+    mode = 0
+
+    def __add__(self, other):
+        if isinstance(other, (int, float)):
+            return Stamp2(self.t + other)
+        if Stamp2.mode == 1:
+            raise ValueError('cannot add two stamps')
+        if Stamp2.mode == 2:
+            raise StampError('cannot add two stamps')
+        if Stamp2.mode == 3:
+            raise ArithmeticError('cannot add two stamps')
+        return NotImplemented
+
+    __radd__ = __add__
+
+
+def make_stamps2(n):
+    def ob(a: int, b: int, c: int, d: int, mode: int) -> bool:
+        ts = [pick(x, 5) for x in [a, b, c, d][:n]]
+        m = pick(mode, 4)
+        with NoTracing():
+            Stamp2.mode = m
+            items = [Stamp2(t) for t in ts]
+            got = []
+            T_STAT(seq=[{'x': v} for v in items], rec=lambda *a: got.append(a))
+            if len(got) != 1:
+                return False
+            cnt, tot, mean, varn, var, mn, mx, med = got[0]
+            srt = sorted(ts)
+            if cnt != n or mn.t != srt[0] or mx.t != srt[-1] or tot != '' or mean != '':
+                return False
+            if n % 2:
+                return med.t == srt[n // 2]
+            return isinstance(med, str) and ('S%d' % srt[n // 2 - 1]) in med and ('S%d' % srt[n // 2]) in med
+    ob.__name__ = 'ob_stamps2_%d' % n
+    return ob
+
+
+for _n in (2, 3, 4):
+    OBLIGATIONS.append(Ob('stamps_errors_n%d' % _n, make_stamps2(_n), ['0 <= a < 5', '0 <= b < 5', '0 <= c < 5', '0 <= d < 5', '0 <= mode < 4'], timeout=tier(200, 900), path_timeout=60,
+                          data='-', selectors='%d date-like values (ranks 0..4) whose pairwise addition fails with TypeError / ValueError / a custom Exception / ArithmeticError: count, min, max, median (a text naming the two middle values for even counts)' % _n,
+                          stubs='render runs untraced once the selectors are fixed on the path'))
